@@ -22,8 +22,10 @@ from harness import common
 from harness.common import Sym
 
 CAND = ['a/', 'a/__init__.py', 'a/b.py', 'a/b/', 'a/b/__init__.py', 'a/b/c.py', 'a.py', 'b.py', 'a/__main__.py',
-        'a_b/', 'a_b/__init__.py', 'a_b/a.py', 'a/b/__main__.py', 'b/']
-NAMES = ['a', 'b', 'c', 'a_b', 'a.b', 'a.b.c', 'a.a', 'a_b.a', 'b.a', 'a.c', 'a.__main__', 'a.b.__main__', 'a.__init__']
+        'a_b/', 'a_b/__init__.py', 'a_b/a.py', 'a/b/__main__.py', 'b/',
+        # names that merely END in a special name
+        'a/x__init__.py', 'y__init__.py', 'a/z__main__.py']
+NAMES = ['a', 'b', 'c', 'a_b', 'a.b', 'a.b.c', 'a.a', 'a_b.a', 'b.a', 'a.c', 'a.__main__', 'a.b.__main__', 'a.__init__', 'a.x__init__', 'y__init__', 'a.z__main__']
 
 
 def closed(sub):
